@@ -36,6 +36,7 @@ def run(chk: Check, proj: Project) -> None:
     s7_frames(chk, proj, m)
     s8_reader_not_wider(chk, proj, m)
     s9_optional_index(chk, proj, m)
+    s10_scan_input(chk, proj, m)
 
 
 def placeholder_roles(f) -> dict:
@@ -51,6 +52,26 @@ def placeholder_roles(f) -> dict:
                     if isinstance(a, ast.Assign) and isinstance(a.value, ast.Constant) and a.value.value is True and isinstance(a.targets[0], ast.Name):
                         flags[kind] = a.targets[0].id
     return {"flags": flags, "deps": {"js": R["js"], "css": R["css"]}, "work": R["work"]}
+
+
+def s10_scan_input(chk: Check, proj: Project, m) -> None:
+    chk.rule("S10", "the scan for the document's own </head> / </body> looks at text that does not yet contain inserted dependency content: it runs before the placeholder substitution (or on a copy taken before it)")
+    f = m.func("render_dependencies")
+    R = _rd_roles(f)
+    W = R["work"]
+    sub = [st for st in stmts(f) if isinstance(st, ast.Assign) and isinstance(st.value, ast.Call) and isinstance(st.value.func, ast.Attribute) and st.value.func.attr == "sub" and "PLACEHOLDER" in norm(st.value.func.value)]
+    scan = [c for c in calls(f) if last_attr(c.func) == "_insert_js_css_to_default_locations"]
+    if len(sub) != 1 or len(scan) != 1 or not W:
+        chk.undecided("S10", "dependencies:render_dependencies:default-location-scan-sees-no-inserted-content", m.loc(f), f"{len(sub)} placeholder substitutions, {len(scan)} default-location scans")
+        return
+    arg = scan[0].args[0] if scan[0].args else None
+    reads_work = arg is not None and any(isinstance(x, ast.Name) and x.id == W for x in ast.walk(arg))
+    # in document mode the substitution inserts the collected JS / CSS where the placeholders were
+    inserts = any(isinstance(x, ast.IfExp) or isinstance(x, ast.Name) for x in ast.walk(sub[0].value.args[0])) if sub[0].value.args else True
+    after = scan[0].lineno > sub[0].lineno and reads_work and norm(sub[0].targets[0]) == W
+    chk.ob("S10", "dependencies:render_dependencies:default-location-scan-sees-no-inserted-content", m.loc(scan[0]), not (after and inserts),
+           "the default-location scan runs on the text as it was before the dependency content was inserted" if not after else
+           f"`{short(scan[0], 60)}` scans `{W}` after `{short(sub[0], 50)}` has already put the collected JS / CSS into it: an end tag inside a component's own script (js = \"var s = '</head>';\") is taken for the document's, and the CSS is spliced into that script")
 
 
 _INDEX_CALLS = ("start", "end", "find", "rfind", "index", "rindex")
